@@ -36,7 +36,7 @@ FUNCTIONS = ['dd.autoref.Function.__init__', 'dd.autoref.Function.__del__', 'dd.
              'dd.autoref.BDD.incref', 'dd.autoref.BDD.decref', 'dd.bdd.BDD.__del__']
 STUBS = ['dd.bdd computations under the wrappers (ite, find_or_add, let, quantify, cube, add_expr, copy_bdd, image, preimage) -> results are arbitrary present references']
 
-OPS = ['var', 'true_false', 'ite', 'apply', 'apply_not', 'let_bool', 'let_fn', 'let_name', 'quantify',
+OPS = ['var', 'true_false', 'ite', 'apply', 'apply_not', 'let_bool', 'let_fn', 'let_name', 'let_empty', 'quantify',
        'exist_forall', 'cube', 'add_expr', 'add_int', 'find_or_add', 'succ', 'low_high', 'operators',
        'comparisons', 'readonly', 'image', 'preimage', 'copy_other', 'copy_same', 'del_twice',
        'incref_decref']
@@ -132,6 +132,8 @@ class Harness:
                 held.append(abdd.let({names[0]: fv}, fu))
             elif op == 'let_name':
                 held.append(abdd.let({names[0]: names[1]}, fu))
+            elif op == 'let_empty':
+                held.append(abdd.let({}, fu))
             elif op == 'quantify':
                 held.append(abdd.quantify(fu, {names[0]}, True))
             elif op == 'exist_forall':
@@ -196,6 +198,11 @@ class Harness:
             res = base.discharge([Goal('method_accepts_valid_handles', z3.BoolVal(False))], [], extract)
             return dict(outcome='raised:' + type(exc).__name__, goals=res)
         st = m.st
+        uniq = []
+        for h in held:
+            if not any(h is x for x in uniq):
+                uniq.append(h)
+        held[:] = uniq
         goals = list(world.obligations)
         goals += [Goal(n, f) for n, f in notes]
         ok_types = all(isinstance(h, F) and h.bdd is abdd and h.manager is bdd for h in held)
@@ -283,6 +290,8 @@ def replay(case):
                 held.append(abdd.let({names[0]: fv}, fu))
             elif op == 'let_name':
                 held.append(abdd.let({names[0]: names[1]}, fu))
+            elif op == 'let_empty':
+                held.append(abdd.let({}, fu))
             elif op == 'quantify':
                 held.append(abdd.quantify(fu, {names[0]}, True))
             elif op == 'exist_forall':
@@ -338,6 +347,11 @@ def replay(case):
             return dict(violates=True, key=f'autoref/{op}/raises', detail=f'{op} raised {e!r}',
                         observed=dict(outcome='raised'))
         gc.collect()
+        uniq = []
+        for h in held:
+            if not any(h is x for x in uniq):
+                uniq.append(h)
+        held = uniq
         for h in held:
             if not isinstance(h, F):
                 return dict(violates=True, key=f'autoref/{op}/raw-node-returned',
